@@ -29,6 +29,9 @@ pub struct Config {
     /// look-ahead rows the striped sequence was configured with BEFORE being configured for this motif
     /// (a sequence object reused after a scan with a shorter motif); None = freshly striped
     pub pre_wrap: Option<usize>,
+    /// scan a CLONE of the configured sequence (a clone has no spare row capacity: any access past the last
+    /// look-ahead row leaves the allocation)
+    pub exact: bool,
 }
 
 impl Config {
@@ -43,6 +46,7 @@ impl Config {
             "arm": cfgs::arm_name(self.arm),
             "origin": self.origin,
             "pre_wrap": self.pre_wrap,
+            "exact_capacity_clone": self.exact,
         })
     }
     pub fn from_json(v: &Value) -> Config {
@@ -58,6 +62,7 @@ impl Config {
             },
             origin: v["origin"].as_str().unwrap_or("").into(),
             pre_wrap: v["pre_wrap"].as_u64().map(|x| x as usize),
+            exact: v["exact_capacity_clone"].as_bool().unwrap_or(false),
         }
     }
 }
@@ -119,6 +124,9 @@ pub fn run_scanner(cfg: &Config, after: &After) -> Result<RunOut, String> {
                 striped.configure_wrap(w);
             }
             striped.configure(&pssm);
+            if cfg.exact {
+                striped = striped.clone();
+            }
             let mut sc = Scanner::new(&pssm, &striped);
             sc.threshold(cfg.threshold);
             sc.block_size(cfg.block);
@@ -464,6 +472,10 @@ fn sweep(mode: Mode, ctx: &mut Ctx, rep: &mut Report) {
                     if m == 3 && wild >= 2 && ctx.quick() && mi % 64 != 1 {
                         continue;
                     }
+                    // quick tier, C03 (every next^k.max history is re-executed): the wildcard-above kind on every 4th matrix of M = 2
+                    if mode == Mode::C03 && m == 2 && wild == 3 && ctx.quick() && mi % 4 != 1 {
+                        continue;
+                    }
                     let idx = base;
                     base += 1;
                     if !ctx.mine(idx) {
@@ -474,7 +486,7 @@ fn sweep(mode: Mode, ctx: &mut Ctx, rep: &mut Report) {
                         for si in 0..5u64.pow(l as u32) {
                             let seq = model::nth_word(si, l, 5);
                             let ts = threshold_menu(&matrix, &seq, if ctx.quick() { 4 } else { 8 });
-                            let probe = Config { seq: seq.clone(), matrix: matrix.clone(), threshold: 0.0, block: 1, arm: Forced::Generic, origin: String::new(), pre_wrap: None };
+                            let probe = Config { seq: seq.clone(), matrix: matrix.clone(), threshold: 0.0, block: 1, arm: Forced::Generic, origin: String::new(), pre_wrap: None, exact: false };
                             let or = Oracle::new(&probe);
                             for &t in &ts {
                                 for &block in &[1usize, 256] {
@@ -487,6 +499,7 @@ fn sweep(mode: Mode, ctx: &mut Ctx, rep: &mut Report) {
                                             arm,
                                             origin: format!("small L={} seq#{} M={} matrix#{} wild={}", l, si, m, mi, wild),
                                             pre_wrap: None,
+                                            exact: false,
                                         };
                                         sink.config(&cfg, &or);
                                         if l == 4 && si == 200 && mi == 1 && block == 1 && arm == Forced::Avx2 {
@@ -540,9 +553,12 @@ fn sweep(mode: Mode, ctx: &mut Ctx, rep: &mut Report) {
                         if !ctx.mine(idx) {
                             continue;
                         }
+                        if mode == Mode::C03 && wild == 3 && ctx.quick() && (mm + l) % 2 != 0 {
+                            continue;
+                        }
                         let matrix = matrix_from_digits(&model::nth_word(mi, m, nrows), wild);
                         let ts = threshold_menu(&matrix, &seq, if big { 3 } else if ctx.quick() { 4 } else { 8 });
-                        let probe = Config { seq: seq.clone(), matrix: matrix.clone(), threshold: 0.0, block: 1, arm: Forced::Generic, origin: String::new(), pre_wrap: None };
+                        let probe = Config { seq: seq.clone(), matrix: matrix.clone(), threshold: 0.0, block: 1, arm: Forced::Generic, origin: String::new(), pre_wrap: None, exact: false };
                         let or = Oracle::new(&probe);
                         let blocks: Vec<usize> = if big { vec![256, 255, 7, 300] } else { BLOCKS.to_vec() };
                         for &t in &ts {
@@ -563,6 +579,8 @@ fn sweep(mode: Mode, ctx: &mut Ctx, rep: &mut Report) {
                                         arm,
                                         origin: format!("shapes L={} content={} M={} matrix#{} wild={} pre_wrap={:?}", l, pat, m, mi, wild, pre_wrap),
                                         pre_wrap,
+                                        // every third threshold/block combination scans an exact-capacity clone
+                                        exact: (block + m) % 3 == 0,
                                     };
                                     sink.config(&cfg, &or);
                                     if l == 70 && pat == 0 && mm == 5 && block == 2 && arm == Forced::Sse2 {
@@ -610,7 +628,7 @@ fn sweep(mode: Mode, ctx: &mut Ctx, rep: &mut Report) {
                     r
                 })
                 .collect();
-            let proto = Config { seq, matrix, threshold: 8.0, block: 256, arm: Forced::Avx2, origin: String::new(), pre_wrap: None };
+            let proto = Config { seq, matrix, threshold: 8.0, block: 256, arm: Forced::Avx2, origin: String::new(), pre_wrap: None, exact: false };
             let or = Oracle::new(&proto);
             for &block in &[256usize, 65535, 65536, 65537, 1 << 20] {
                 for arm in cfgs::FORCED {
